@@ -32,8 +32,10 @@ type c07Src struct {
 	samples int // samples per audio frame
 }
 
-func c07Build(r *rand.Rand, sp gen.EsSpec) *c07Src {
-	es := gen.BuildEs(r, 1, sp)
+func c07Build(r *rand.Rand, sp gen.EsSpec) *c07Src { return c07BuildInc(r, sp, 1) }
+
+func c07BuildInc(r *rand.Rand, sp gen.EsSpec, inc int) *c07Src {
+	es := gen.BuildEs(r, inc, sp)
 	s := &c07Src{es: es, aClock: es.AClock}
 	switch sp.ACodec {
 	case "aac":
